@@ -114,6 +114,9 @@ pub struct StreamCfg {
     pub huge_pct: u32,
     /// percent of episodes that get any fault at all
     pub fault_pct: u32,
+    /// percent of episodes that are a start frame announcing a huge packet, a few
+    /// continuation frames, and then nothing more (abandoned)
+    pub giant_pct: u32,
 }
 
 fn src_packet(sim: &Sim, cfg: &StreamCfg) -> Packet {
@@ -150,6 +153,33 @@ fn rand_bytes(sim: &Sim, n: usize, nonzero: bool) -> Vec<u8> {
 
 /// One episode: the frames of one source packet, damaged by up to three faults.
 pub fn episode(sim: &Sim, cfg: &StreamCfg, tag: Tag, out: &mut Vec<Item>) -> Result<(), EncodeFailed> {
+    if cfg.giant_pct > 0 && sim.chance(cfg.giant_pct) {
+        let last = sim.pick(&[4095u16, 1000, 255, 256, 40]);
+        let cont = sim.draw(60) as u16;
+        let addr = cfg.addrs[sim.draw(3) as usize];
+        let not_error = sim.chance(70);
+        for i in 0..=cont.min(last) {
+            let id = if i == 0 { last } else { i };
+            let mut data = [0x77u8; 8];
+            data[0] = id as u8;
+            let rf = RF {
+                not_error,
+                start: i == 0,
+                multi: true,
+                id,
+                addr,
+                data_len: 8,
+                data,
+            };
+            out.push(Item {
+                unit: encode(cfg.kind, &rf)?,
+                tag,
+                what: "giant-abandoned",
+            });
+        }
+        sim.count("abandoned_giant_announcement");
+        return Ok(());
+    }
     let p = src_packet(sim, cfg);
     let mut rfs = frames_of(&p)?;
     let mut whats: Vec<&'static str> = vec!["valid"; rfs.len()];
@@ -527,6 +557,7 @@ fn draw_cfg(sim: &Sim, kind: LinkKind, tier: Tier, long: bool) -> StreamCfg {
         large_pct,
         huge_pct,
         fault_pct: sim.pick(&[60u32, 100, 30, 10]),
+        giant_pct: if long { sim.pick(&[2u32, 0, 10]) } else { sim.pick(&[0u32, 0, 5]) },
     }
 }
 
@@ -788,4 +819,187 @@ pub fn panic_site(msg: &str) -> String {
         }
         None => "unknown".to_string(),
     }
+}
+
+// ------------------------------------------------------------------ C19 ----
+
+/// Long traffic histories, heap measured after every poll.
+pub fn run_c19(sim: &Sim, prop: &str, tier: Tier) -> Outcome {
+    use crate::alloc;
+    let kind = LinkKind::from_index(sim.draw(3));
+    let mode = sim.draw(7);
+    let wire = Wire::new(kind);
+    let back = Wire::new(kind);
+    wire.borrow_mut().policy = schedule_policy(sim, mode, kind);
+    let mut cfg = draw_cfg(sim, kind, tier, true);
+    // clean-only histories are a separate configuration
+    let clean_only = sim.chance(15);
+    if clean_only {
+        cfg.fault_pct = 0;
+        cfg.giant_pct = 0;
+    }
+    let n_eps = match tier {
+        Tier::Quick => 20 + sim.draw(sim.pick(&[100u32, 400, 30])),
+        Tier::Thorough => 20 + sim.draw(sim.pick(&[400u32, 3000, 100, 20000])),
+    };
+    let mut items: Vec<Item> = Vec::new();
+    for _ in 0..n_eps {
+        if let Err(e) = episode(sim, &cfg, Tag::Prefix, &mut items) {
+            return Outcome::Foreign("C10.encode", e.0);
+        }
+    }
+    let loaded = load(sim, &wire, &items);
+    let n_frames = loaded.frame_tags.len();
+    sim.count_n("frames_supplied", n_frames as u64);
+    sim.set_sample(|| {
+        format!(
+            "link={} schedule_mode={} episodes={} frames={} clean_only={} fault_pct={} giant_pct={} large/huge={}/{}",
+            kind.name(),
+            mode,
+            n_eps,
+            n_frames,
+            clean_only,
+            cfg.fault_pct,
+            cfg.giant_pct,
+            cfg.large_pct,
+            cfg.huge_pct
+        )
+    });
+    drop(items);
+
+    let base = alloc::sut_live();
+    let mut rx = new_receiver(sim, kind, &wire, &back);
+    let fresh = alloc::sut_live() - base;
+    let sig = |what: &str| format!("{}:{}", kind.name(), what);
+
+    let mut announced: u32 = 0; // A: largest announcement taken since the last boundary
+    let mut polls = 0usize;
+    let soft_budget = 4 * n_frames + 300;
+    let hard_budget = soft_budget + 2 * n_frames + 50;
+    let mut max_between: isize = 0;
+    loop {
+        let out = poll(sim, "rx", &mut rx, &wire);
+        polls += 1;
+        for i in out.frames_before..out.frames_after.min(n_frames) {
+            announced = announced.max(loaded.frame_announce[i]);
+        }
+        enum Class {
+            Boundary,
+            Nothing,
+            Other,
+        }
+        let (class, payload_len, shown) = match &out.res {
+            Err(Crash::Blocked) => return Outcome::Foreign("C06.noblock", "receiver blocked".to_string()),
+            Err(Crash::Panic(m)) => return Outcome::Foreign("C06.total", format!("receiver panicked: {}", m)),
+            Ok(Ok(p)) => (Class::Boundary, p.data.len(), "Ok(packet)"),
+            Ok(Err(InterfaceError::BuilderError(_))) => (Class::Boundary, 0, "Err(BuilderError)"),
+            Ok(Err(InterfaceError::NoPacketReceived)) => (Class::Nothing, 0, "NoPacketReceived"),
+            Ok(Err(_)) => (Class::Other, 0, "Err(other)"),
+        };
+        let quiescent = matches!(class, Class::Nothing) && wire.borrow().in_flight() == 0;
+        let stuck = matches!(class, Class::Nothing) && out.cursor_after == out.cursor_before && wire.borrow().drain && !quiescent;
+        let max_single = out.max_single;
+        let frames_in_poll = out.frames_after - out.frames_before;
+        drop(out); // the returned packet / error is released before measuring
+        let live = alloc::sut_live() - base;
+
+        // C19.frame: no single allocation beyond what a one-byte length can announce,
+        // unless explained by the packet in flight or the payload handed out
+        let allowed_single = 1024isize.max(96 * announced as isize).max(4 * payload_len as isize);
+        if max_single > allowed_single {
+            return fail(
+                prop,
+                "C19.frame",
+                format!(
+                    "a single allocation of {} bytes was made during a poll that took {} frame(s) (largest announcement in flight {}, returned payload {} bytes): beyond the 255 bytes a link frame's length byte can announce",
+                    max_single, frames_in_poll, announced, payload_len
+                ),
+                sig("frame-buffer"),
+            );
+        }
+        match class {
+            Class::Boundary => {
+                sim.count("boundaries");
+                if live > fresh {
+                    return fail(
+                        prop,
+                        "C19.boundary",
+                        format!(
+                            "right after {} the receiver holds {} bytes, a fresh receiver holds {} (poll #{}, {} of {} frames taken)",
+                            shown,
+                            live,
+                            fresh,
+                            polls,
+                            wire.borrow().frames_taken,
+                            n_frames
+                        ),
+                        sig(&format!("held-after-{}", shown)),
+                    );
+                }
+                if announced > 1 {
+                    sim.probe("boundary_after_multi_frame");
+                }
+                announced = 0;
+            }
+            _ => {
+                let bound = fresh + 256 + 96 * announced as isize;
+                if live > bound {
+                    return fail(
+                        prop,
+                        "C19.between",
+                        format!(
+                            "between polls the receiver holds {} bytes; bound is fresh({}) + 256 + 96 x announced({}) = {} (poll #{}, {} of {} frames taken)",
+                            live,
+                            fresh,
+                            announced,
+                            bound,
+                            polls,
+                            wire.borrow().frames_taken,
+                            n_frames
+                        ),
+                        sig("held-between-polls"),
+                    );
+                }
+                if live > fresh {
+                    sim.probe("partial_packet_held_between_polls");
+                    max_between = max_between.max(live - fresh);
+                }
+            }
+        }
+        if polls % 64 == 0 {
+            let st = (bucket((live - fresh).max(0) as usize) << 8) | (bucket(announced as usize) << 4) | bucket(wire.borrow().in_flight());
+            sim.abstract_state(st);
+        }
+        if quiescent {
+            break;
+        }
+        if stuck {
+            return Outcome::Foreign("C06.noblock", "no progress".to_string());
+        }
+        if polls > soft_budget {
+            wire.borrow_mut().drain = true;
+        }
+        if polls > hard_budget {
+            return Outcome::Foreign("C06.noblock", "polls did not drain the stream".to_string());
+        }
+    }
+    sim.count_n("polls", polls as u64);
+    if max_between > 4096 {
+        sim.probe("held_over_4k_for_large_packet");
+    }
+    if n_frames >= 1000 {
+        sim.probe("history_over_1000_frames");
+    }
+    // a receiver dropped at quiescence must release everything it allocated
+    drop(rx);
+    let left = alloc::sut_live() - base;
+    if left > 0 {
+        return fail(
+            prop,
+            "C19.boundary",
+            format!("{} bytes allocated by the receiver were never released (leaked) over a history of {} frames", left, n_frames),
+            sig("leak-at-drop"),
+        );
+    }
+    Outcome::Pass
 }
